@@ -1,6 +1,314 @@
-import Summer.Model.Run
--- placeholder until the proof worker delivers (replaced by the real file)
+import Summer.Proofs.InitPop
+/-
+C06 — the initial population is the declared distribution pushed through the population splits of
+the stratifications and the rebalances (`adjust_population_split`).
+-/
 namespace Summer.Props.C06
-theorem placeholder : True := trivial
+open Summer Summer.Run Summer.Build Summer.Spec Summer.Proofs.InitPop
+
+/-! ### 1. the scatter of `stratify_compartment_values` is the loop specification -/
+
+/-- For every compartment list, every stratification with distinct strata and every value vector of
+the right length, the run-time scatter (`stratifyValues` with the index arrays recorded by
+`_stratify_compartments`) equals the direct specification: a stratified compartment is replaced by
+`parent × split[stratum]` for each stratum (in stratum order), every other compartment keeps its
+value; the result has one entry per new compartment. -/
+theorem scatter_eq_spec {α : Type} [Mul α] [Zero α] (comps : List Comp) (s : Strat α)
+    (hnd : s.strata.Nodup) (split : List (String × α)) (vals : List α)
+    (hv : vals.length = comps.length) :
+    stratifyValues (stratIndexArrays comps s) s.strata split vals
+      = (comps.zip vals).flatMap (fun cv =>
+          if cv.1.hasNameIn s.comps then s.strata.map (fun st => cv.2 * (alookup split st).getD 0)
+          else [cv.2])
+    ∧ (stratifyValues (stratIndexArrays comps s) s.strata split vals).length
+      = (stratifyComps comps s).length := by
+  have h := (Inv_stratIndexArrays s hnd split comps).main vals hv
+  refine ⟨h, ?_⟩
+  rw [h]
+  exact length_stratifySpec comps s split vals hv
+
+/-- Every target index is written exactly once: the indices written by the scatter (the
+passthrough targets followed by the targets of each stratum, in writing order) are a permutation of
+`0 … newSize-1`, and no write is dropped by a length mismatch between index and value arrays. -/
+theorem targets_partition {α : Type} (comps : List Comp) (s : Strat α) (hnd : s.strata.Nodup) :
+    ((stratIndexArrays comps s).passTarget ++
+        s.strata.flatMap (fun st => (alookup (stratIndexArrays comps s).stratumTarget st).getD [])).Perm
+      (List.range (stratIndexArrays comps s).newSize) ∧
+    (stratIndexArrays comps s).passTarget.length = (stratIndexArrays comps s).passBase.length ∧
+    ∀ st ∈ s.strata, ∃ L, alookup (stratIndexArrays comps s).stratumTarget st = some L ∧
+      L.length = (stratIndexArrays comps s).stratBase.length := by
+  have hinv := Inv_stratIndexArrays (α := Nat) s hnd [] comps
+  refine ⟨writeTargets_perm s hnd comps, hinv.ptl, fun st hst => ?_⟩
+  obtain ⟨L, h1, h2, _⟩ := hinv.st st hst
+  exact ⟨L, h1, h2⟩
+
+/-- non-vacuity: three compartments, the first and third stratified in three strata -/
+example :
+    let comps : List Comp := [⟨"S", []⟩, ⟨"I", [("age", "0")]⟩, ⟨"R", []⟩]
+    let s : Strat Rat := { kind := .plain, name := "loc", strata := ["a", "b", "c"], comps := ["S", "R"],
+                           split := [], flowAdj := [], infAdj := [], mixing := none }
+    s.strata.Nodup ∧ [(10 : Rat), 20, 30].length = comps.length ∧
+    stratifyValues (stratIndexArrays comps s) s.strata [("a", (1/2 : Rat)), ("b", 1/4), ("c", 1/4)] [10, 20, 30]
+      = [5, 5/2, 5/2, 20, 15, 15/2, 15/2] := by
+  decide +kernel
+
+/-- The hypothesis `Nodup` is necessary: with a repeated stratum the scatter leaves a zero. -/
+example :
+    let comps : List Comp := [⟨"S", []⟩]
+    let s : Strat Rat := { kind := .plain, name := "loc", strata := ["a", "a"], comps := ["S"],
+                           split := [], flowAdj := [], infAdj := [], mixing := none }
+    stratifyValues (stratIndexArrays comps s) s.strata [("a", (1/2 : Rat))] [10] = [5, 0] := by
+  decide +kernel
+
+/-! ### 2. totals -/
+
+/-- If the split proportions over the strata sum to one then (a) the children of every stratified
+compartment sum to the parent's value — the result is the concatenation of the per-compartment
+chunks and every chunk sums to its parent — and (b) the grand total is preserved. -/
+theorem totals {α : Type} [Field α] (comps : List Comp) (s : Strat α)
+    (hnd : s.strata.Nodup) (split : List (String × α)) (vals : List α)
+    (hv : vals.length = comps.length)
+    (hsum : sumL (s.strata.map (fun st => (alookup split st).getD 0)) = 1) :
+    let chunk : Comp × α → List α := fun cv =>
+      if cv.1.hasNameIn s.comps then s.strata.map (fun st => cv.2 * (alookup split st).getD 0) else [cv.2]
+    stratifyValues (stratIndexArrays comps s) s.strata split vals = (comps.zip vals).flatMap chunk
+    ∧ (∀ cv ∈ comps.zip vals, sumL (chunk cv) = cv.2)
+    ∧ sumL (stratifyValues (stratIndexArrays comps s) s.strata split vals) = sumL vals := by
+  intro chunk
+  have h := (scatter_eq_spec comps s hnd split vals hv).1
+  refine ⟨h, ?_, ?_⟩
+  · intro cv _
+    by_cases hc : cv.1.hasNameIn s.comps
+    · simp only [chunk, hc, if_true]; exact sumL_chunk s.strata split cv.2 hsum
+    · simp [chunk, hc, sumL]
+  · rw [h]; exact sumL_stratifySpec comps s.comps s.strata split vals hv hsum
+
+/-- non-vacuity of `totals` -/
+example :
+    let s : Strat Rat := { kind := .plain, name := "loc", strata := ["a", "b", "c"], comps := ["S", "R"],
+                           split := [], flowAdj := [], infAdj := [], mixing := none }
+    s.strata.Nodup ∧
+    sumL (s.strata.map (fun st => (alookup [("a", (1/2 : Rat)), ("b", 1/4), ("c", 1/4)] st).getD 0)) = 1 := by
+  decide +kernel
+
+/-! ### 3. the whole initial population, for a sequence of stratifications -/
+
+/-- For a model whose build actions are stratifications only — `ss` lists them in order, each with
+its evaluated split dictionary — `initialPopulation` succeeds, has one entry per final compartment
+(`compsF`, the iterated `_stratify_compartments`) and, zipped with the final compartments, equals the
+specification `initSpec`: the declared distribution `(compartment n, dist n)` refined by one
+stratification at a time, every stratified pair `(c, v)` being replaced by
+`(c.stratify name stratum, v × split[stratum])` in stratum order. -/
+theorem init_eq_spec {α : Type} [Zero α] [One α] [Add α] [Sub α] [Mul α] [Div α] [LT α]
+    [DecidableLT α] (m : Model α) (params : List (String × α))
+    (dist : List (String × Expr α)) (dvals : List (String × α))
+    (ss : List (Strat α × List (String × α)))
+    (harr : m.arrayPop = none) (hdist : m.initDist = some dist)
+    (hdv : evalDict params dist = some dvals)
+    (hact : m.actions = ss.map (fun s => BuildAction.stratify s.1.name))
+    (hfind : ∀ s ∈ ss, m.strats.find? (fun t => t.name == s.1.name) = some s.1 ∧
+      evalDict params s.1.split = some s.2)
+    (hnd : ∀ s ∈ ss, s.1.strata.Nodup) :
+    ∃ x0, initialPopulation m params = some x0 ∧
+      x0.length = (ss.foldl (fun cs s => stratifyComps cs s.1) (m.origNames.map (fun n => (⟨n, []⟩ : Comp)))).length ∧
+      (ss.foldl (fun cs s => stratifyComps cs s.1) (m.origNames.map (fun n => (⟨n, []⟩ : Comp)))).zip x0
+        = initSpec ss (m.origNames.map (fun n => ((⟨n, []⟩ : Comp), (alookup dvals n).getD 0))) := by
+  obtain ⟨h1, h2, h3⟩ := pureFold_spec ss hnd (m.origNames.map (fun n => (⟨n, []⟩ : Comp)))
+    (m.origNames.map (fun n => (alookup dvals n).getD 0)) (by simp)
+  refine ⟨(ss.foldl pureStep (m.origNames.map (fun n => (⟨n, []⟩ : Comp)),
+    m.origNames.map (fun n => (alookup dvals n).getD 0))).2, ?_, ?_, ?_⟩
+  · rw [initialPopulation_eq m params dist dvals harr hdist hdv, hact, ipFold_stratify m params ss hfind]
+    rfl
+  · rw [h2, h1]
+  · rw [← h1, h3, zip_map_map']
+
+/-- `init_eq_spec` is stated over the core arithmetic classes the model is written in; in particular it
+holds verbatim over every ordered field (and for the `Rat` instance executed by the driver). -/
+example {α : Type} [Field α] [LinearOrder α] [IsStrictOrderedRing α] (m : Model α)
+    (params : List (String × α)) (dist : List (String × Expr α)) (dvals : List (String × α))
+    (ss : List (Strat α × List (String × α)))
+    (harr : m.arrayPop = none) (hdist : m.initDist = some dist)
+    (hdv : evalDict params dist = some dvals)
+    (hact : m.actions = ss.map (fun s => BuildAction.stratify s.1.name))
+    (hfind : ∀ s ∈ ss, m.strats.find? (fun t => t.name == s.1.name) = some s.1 ∧
+      evalDict params s.1.split = some s.2)
+    (hnd : ∀ s ∈ ss, s.1.strata.Nodup) :
+    ∃ x0, initialPopulation m params = some x0 ∧
+      x0.length = (ss.foldl (fun cs s => stratifyComps cs s.1) (m.origNames.map (fun n => (⟨n, []⟩ : Comp)))).length :=
+  let ⟨x0, h1, h2, _⟩ := init_eq_spec m params dist dvals ss harr hdist hdv hact hfind hnd
+  ⟨x0, h1, h2⟩
+
+/-- Product form: every entry `(c, v)` of the specification comes from one original compartment
+`(c0, v0)` and a choice of one stratum per stratification (`path`); `c` is `c0` stratified along the
+path and `v = v0 × split₁[path₁] × split₂[path₂] × …` (only the stratifications that apply to
+`c0`'s name contribute). -/
+theorem init_product {α : Type} [Mul α] [Zero α] {β : Type} (ss : List (Strat β × List (String × α)))
+    (cvs : List (Comp × α)) (cv : Comp × α) (h : cv ∈ initSpec ss cvs) :
+    ∃ cv0 ∈ cvs, ∃ path : List String, path.length = ss.length ∧
+      cv.1 = pathComp cv0.1 ss path ∧ cv.2 = pathValue cv0.1 cv0.2 ss path :=
+  initSpec_product ss cvs cv h
+
+section init_examples
+def exAge : Strat Rat :=
+  { kind := .age, name := "age", strata := ["0", "5"], comps := ["S", "I"],
+    split := [("0", .const (1/4)), ("5", .const (3/4))], flowAdj := [], infAdj := [], mixing := none }
+def exLoc : Strat Rat :=
+  { kind := .plain, name := "loc", strata := ["a", "b"], comps := ["S"],
+    split := [("a", .param "pa"), ("b", .const (2/5))], flowAdj := [], infAdj := [], mixing := none }
+def exModel : Model Rat :=
+  { t0 := 0, t1 := 1, dt := 1, nTimes := 2,
+    comps := [], origNames := ["S", "I"], infectious := ["I"], flows := [], strats := [exAge, exLoc],
+    mixingCats := [[]], mixingMats := [], strains := ["default"],
+    initDist := some [("S", .const 100), ("I", .param "seed")], arrayPop := none,
+    actions := [.stratify "age", .stratify "loc"], requests := [], computed := [], whitelist := [],
+    finalized := false }
+def exParams : List (String × Rat) := [("pa", 3/5), ("seed", 8)]
+def exSS : List (Strat Rat × List (String × Rat)) :=
+  [(exAge, [("0", 1/4), ("5", 3/4)]), (exLoc, [("a", 3/5), ("b", 2/5)])]
+
+/-- non-vacuity of `init_eq_spec`: all hypotheses hold for a two-compartment model stratified twice -/
+example :
+    exModel.arrayPop = none ∧ exModel.initDist = some [("S", .const 100), ("I", .param "seed")] ∧
+    evalDict exParams [("S", .const 100), ("I", .param "seed")] = some [("S", 100), ("I", 8)] ∧
+    (∀ s ∈ exSS, exModel.strats.find? (fun t => t.name == s.1.name) = some s.1 ∧
+      evalDict exParams s.1.split = some s.2) ∧
+    (∀ s ∈ exSS, s.1.strata.Nodup) := by
+  refine ⟨rfl, rfl, ?_, ?_, ?_⟩
+  · simp [evalDict, evalStatic, Expr.eval, exParams, alookup]
+  · intro s hs
+    simp only [exSS, List.mem_cons, List.not_mem_nil, or_false] at hs
+    rcases hs with rfl | rfl
+    · refine ⟨by simp [exModel, exAge, exLoc], ?_⟩
+      simp [evalDict, evalStatic, Expr.eval, exAge]
+    · refine ⟨by simp [exModel, exAge, exLoc], ?_⟩
+      simp [evalDict, evalStatic, Expr.eval, exLoc, exParams, alookup]
+  · intro s hs
+    simp only [exSS, List.mem_cons, List.not_mem_nil, or_false] at hs
+    rcases hs with rfl | rfl <;> decide
+
+#eval initialPopulation exModel exParams   -- some [15, 10, 45, 30, 2, 6]
+end init_examples
+
+/-! ### 4. rebalance (`adjust_population_split`)
+
+Vocabulary (`Summer/Spec/InitPop.lean`): `sameGroup strat c d` — same name and the same strata items
+other than `strat`; `groupOf comps strat c` — the members (with indices) of `c`'s group;
+`groupTotal comps strat pop c` — the sum of the INPUT vector `pop` over `c`'s group;
+`affected comps strat flt c` — `c`'s group contains a compartment stratified by `strat` that matches
+the destination filter `flt` (these are exactly the groups the Python loop visits).
+
+Hypotheses: strata keys are distinct within every compartment and compartments of the same name carry
+the same strata keys (both hold for every model built by `stratify_with`).  `comps.Nodup` is not
+needed: everything is stated by index. -/
+
+/-- Pointwise characterisation of `rebalance`: the result has the length of the input; an entry of a
+compartment outside the affected groups is unchanged; an entry of a compartment in an affected group
+becomes `(total of its group in the INPUT vector) × props[its stratum of strat]`. -/
+theorem rebalance {α : Type} [Add α] [Mul α] [Zero α] (comps : List Comp) (strat : String)
+    (flt : Strata) (props : List (String × α)) (pop : List α)
+    (hkn : ∀ c ∈ comps, (c.strata.map (·.1)).Nodup)
+    (hku : ∀ c ∈ comps, ∀ d ∈ comps, c.name = d.name → c.strata.map (·.1) = d.strata.map (·.1))
+    (hlen : pop.length = comps.length) :
+    (Run.rebalance comps strat flt props pop).length = pop.length ∧
+    ∀ (i : Nat) (hi : i < comps.length),
+      (affected comps strat flt comps[i] = false →
+        (Run.rebalance comps strat flt props pop).getD i 0 = pop.getD i 0) ∧
+      (affected comps strat flt comps[i] = true →
+        ∃ k, alookup comps[i].strata strat = some k ∧
+          (Run.rebalance comps strat flt props pop).getD i 0
+            = groupTotal comps strat pop comps[i] * (alookup props k).getD 0) := by
+  have hok : CompsOK comps := ⟨hkn, hku⟩
+  have hgs := rbGroups_ok comps strat flt
+  refine ⟨length_rbFold comps strat props pop _, fun i hi => ⟨fun h => ?_, fun h => ?_⟩⟩
+  · exact rbFold_unaffected hok strat flt props pop _ hgs i hi h
+  · exact rbFold_affected hok strat flt props pop _ hgs i hi hlen h
+
+/-- When the destination filter does not mention `strat` itself (the documented use), a compartment
+of the model is affected iff it is stratified by `strat` and matches the filter. -/
+theorem rebalance_affected_iff (comps : List Comp) (strat : String) (flt : Strata)
+    (hkn : ∀ c ∈ comps, (c.strata.map (·.1)).Nodup)
+    (hku : ∀ c ∈ comps, ∀ d ∈ comps, c.name = d.name → c.strata.map (·.1) = d.strata.map (·.1))
+    (hflt : flt.all (fun kv => kv.1 != strat) = true) (c : Comp) (hc : c ∈ comps) :
+    affected comps strat flt c = (c.strata.any (fun kv => kv.1 == strat) && c.hasStrata flt) :=
+  affected_eq_of_filter_free ⟨hkn, hku⟩ strat flt hflt c hc
+
+/-- Every affected group keeps its total: if the `strat`-strata of the group's members are exactly
+the keys of `props` (each once) and `props` sums to one, the sum of the result over the group equals
+the sum of the input over the group. -/
+theorem rebalance_group_total {α : Type} [Field α] (comps : List Comp) (strat : String)
+    (flt : Strata) (props : List (String × α)) (pop : List α)
+    (hkn : ∀ c ∈ comps, (c.strata.map (·.1)).Nodup)
+    (hku : ∀ c ∈ comps, ∀ d ∈ comps, c.name = d.name → c.strata.map (·.1) = d.strata.map (·.1))
+    (hlen : pop.length = comps.length) (c : Comp) (haff : affected comps strat flt c = true)
+    (hpk : (props.map (·.1)).Nodup)
+    (hperm : ((groupOf comps strat c).map (fun dj => (alookup dj.1.strata strat).getD "")).Perm
+      (props.map (·.1)))
+    (hsum : sumL (props.map (·.2)) = 1) :
+    sumL ((groupOf comps strat c).map (fun dj => (Run.rebalance comps strat flt props pop).getD dj.2 0))
+      = sumL ((groupOf comps strat c).map (fun dj => pop.getD dj.2 0)) := by
+  have hok : CompsOK comps := ⟨hkn, hku⟩
+  have h := rbFold_group_sum hok strat flt props pop _ (rbGroups_ok comps strat flt) c hlen haff
+  have h2 : sumL ((groupOf comps strat c).map
+      (fun dj => (alookup props ((alookup dj.1.strata strat).getD "")).getD 0)) = 1 := by
+    have := sumL_perm (hperm.map (fun k => (alookup props k).getD 0))
+    rw [List.map_map, map_alookup_keys props hpk, hsum] at this
+    exact this
+  rw [h2, mul_one] at h
+  exact h
+
+/-- Order independence: the totals are read from the input vector, so processing the groups in any
+other order (indeed any list with the same elements, e.g. Python's `set` iteration order) gives the
+same result. -/
+theorem rebalance_order_independent {α : Type} [Add α] [Mul α] [Zero α] (comps : List Comp)
+    (strat : String) (flt : Strata) (props : List (String × α)) (pop : List α)
+    (hkn : ∀ c ∈ comps, (c.strata.map (·.1)).Nodup)
+    (hku : ∀ c ∈ comps, ∀ d ∈ comps, c.name = d.name → c.strata.map (·.1) = d.strata.map (·.1))
+    (hlen : pop.length = comps.length) (gs' : List (String × Strata))
+    (hperm : gs'.Perm (rbGroups comps strat flt)) :
+    rbFold comps strat props pop gs' = Run.rebalance comps strat flt props pop :=
+  rbFold_congr ⟨hkn, hku⟩ strat flt props pop _ gs' (rbGroups_ok comps strat flt)
+    (fun _ => hperm.mem_iff) hlen
+
+section rebalance_examples
+/-- two groups of `S` (by `age`), stratified by `loc`; `I` is not stratified by `loc` -/
+def exComps : List Comp :=
+  [⟨"S", [("age", "0"), ("loc", "a")]⟩, ⟨"S", [("age", "0"), ("loc", "b")]⟩,
+   ⟨"S", [("age", "5"), ("loc", "a")]⟩, ⟨"S", [("age", "5"), ("loc", "b")]⟩, ⟨"I", [("age", "0")]⟩]
+def exProps : List (String × Rat) := [("a", 1/4), ("b", 3/4)]
+def exPop : List Rat := [20, 20, 5, 15, 7]
+
+/-- non-vacuity of all hypotheses of `rebalance` / `rebalance_group_total`, and the computed result:
+only the `age = 0` group of `S` is redistributed -/
+example :
+    (∀ c ∈ exComps, (c.strata.map (·.1)).Nodup) ∧
+    (∀ c ∈ exComps, ∀ d ∈ exComps, c.name = d.name → c.strata.map (·.1) = d.strata.map (·.1)) ∧
+    exPop.length = exComps.length ∧
+    affected exComps "loc" [("age", "0")] exComps[0] = true ∧
+    affected exComps "loc" [("age", "0")] exComps[2] = false ∧
+    (exProps.map (·.1)).Nodup ∧
+    ((groupOf exComps "loc" exComps[0]).map (fun dj => (alookup dj.1.strata "loc").getD "")).Perm
+      (exProps.map (·.1)) ∧
+    sumL (exProps.map (·.2)) = 1 ∧
+    Run.rebalance exComps "loc" [("age", "0")] exProps exPop = [10, 30, 5, 15, 7] := by
+  decide +kernel
+
+/-- The uniform-keys hypothesis is necessary: with compartments of one name carrying different strata
+keys, the groups selected by `_get_matching_compartments` overlap, the total (30) is not preserved
+(the result sums to 50) and the result depends on the processing order of the groups. -/
+example :
+    let comps : List Comp := [⟨"S", [("a", "1"), ("loc", "x")]⟩, ⟨"S", [("a", "1"), ("b", "2"), ("loc", "x")]⟩]
+    Run.rebalance comps "loc" [] [("x", (1 : Rat))] [10, 20] = [30, 20] ∧
+    rbFold comps "loc" [("x", (1 : Rat))] [10, 20] (rbGroups comps "loc" []).reverse = [30, 30] := by
+  decide +kernel
+end rebalance_examples
+
+#print axioms scatter_eq_spec
+#print axioms targets_partition
+#print axioms totals
+#print axioms init_eq_spec
+#print axioms init_product
+#print axioms rebalance
+#print axioms rebalance_affected_iff
+#print axioms rebalance_group_total
+#print axioms rebalance_order_independent
 end Summer.Props.C06
-#print axioms Summer.Props.C06.placeholder
